@@ -161,8 +161,10 @@ class GraphBasedModelConstructor:
                 ambiguous_assignments[read_id].append(transcript_id)
 
         for read_id in ambiguous_assignments.keys():
-            self.transcript_counter.add_read_info_raw(read_id, ambiguous_assignments[read_id][1:],
-                                                      ambiguous_assignments[read_id][0])
+            # a read id may be listed twice under one model (two alignment records of one read in this locus):
+            # the read is shared by the distinct models only
+            transcript_ids = list(dict.fromkeys(ambiguous_assignments[read_id][1:]))
+            self.transcript_counter.add_read_info_raw(read_id, transcript_ids, ambiguous_assignments[read_id][0])
 
         self.transcript_counter.add_unassigned(sum(value == 0 for value in self.read_assignment_counts.values()))
         self.transcript_counter.add_confirmed_features([model.transcript_id for model in self.transcript_model_storage])
